@@ -320,8 +320,8 @@ def _run(ctx):
     failed = fs_tie.obligations(ctx)   # Props/C03 + the structural tie Goat.Tie.FSC03 (regenerated from ctx.repo)
     go = ctx.build_go("views")
     model = ctx.build_model("m_views")
-    n_gen = ctx.pick(2400, 32000)
-    n_oracle = ctx.pick(2400, 32000)
+    n_gen = ctx.pick(1600, 32000)
+    n_oracle = ctx.pick(1600, 32000)
     segs_light, segs_heavy, segs_extra = ctx.pick(4, 5), ctx.pick(3, 4), ctx.pick(3, 4)
     ctx.rule = (
         "differential: %d random histories in %d shards from VERIF_SEED: reset, a random view stack of 1..4 layers "
